@@ -201,7 +201,7 @@
         std::mem::forget(full);
     }
 
-// @h id=H11.2-m$m prop=C11 rep="m:0-1" quick="0-1" cap=900 mem=20 unwind=11 uw="rec:read_dir_rec=1;read_dir_rec=3" stubs="Directory::from_reader -> fixed-shape reference parser (see H3.1a)" bounds="root-only directory of 2 tile entries (any ids, run lengths 1..2, value mode $m); filter = every combination of {Included,Excluded,Unbounded}^2 with any u64 endpoints (empty, inverted, 0, u64::MAX included); probe id any u64. 'Full opening' is the reference expectation that H3.1a proves the unfiltered walk equal to"
+// @h id=H11.2-m$m prop=C11 rep="m:0-1" quick="0-1" cap=900 mem=20 unwind=11 uw="rec:read_dir_rec=1;read_dir_rec=4" stubs="Directory::from_reader -> fixed-shape reference parser (see H3.1a)" bounds="root-only directory of 2 tile entries (any ids, run lengths 1..3 with at most 4 tiles in total, value mode $m); filter = every combination of {Included,Excluded,Unbounded}^2 with any u64 endpoints (empty, inverted, 0, u64::MAX included); probe id any u64. 'Full opening' is the reference expectation that H3.1a proves the unfiltered walk equal to"
     /// range-filtered walk == full walk restricted to the range, for a symbolic probe id; never an error where the full walk succeeds
     #[kani::proof]
     #[kani::stub(crate::directory::Directory::from_reader, stub_from_reader2)]
@@ -213,7 +213,8 @@
         let b: u64 = kani::any();
         let t: u64 = kani::any();
         kani::assume(ks < 3 && ke < 3);
-        assume_dir(&e, true, 2);
+        assume_dir(&e, true, 3);
+        kani::assume(e[0].run_length + e[1].run_length <= 4);
         fix_values(&mut e, $m, 0);
         let mut img = [0u8; 3 + L2];
         put2(&mut img, 3, &e);
@@ -229,6 +230,8 @@
         kani::cover!(ks == 1 && a == u64::MAX);
         kani::cover!(ks == 0 && ke == 0 && a > b);
         kani::cover!(e[0].run_length == 2 && t == e[0].tile_id + 1 && got(&part, t).is_some());
+        // a range strictly inside a run of three
+        kani::cover!(e[0].run_length == 3 && ks == 0 && ke == 0 && a == e[0].tile_id + 1 && b == a && got(&part, a).is_some());
         std::mem::forget(part);
     }
 
@@ -301,7 +304,7 @@
         std::mem::forget(part);
     }
 
-// @h id=H8.4-k$k prop=C08 rep="k:0,1,3" quick="0,1,3" cap=900 mem=16 unwind=11 uw="read_dir_rec=3" checks=std recfail=cex stubs="Directory::from_reader -> fixed-shape reference parser (1 entry)" bounds="pointer-graph hazard class k of {0: leaf pointer to its own directory; 1: two directories pointing at each other; 2: leaf_dir_offset = 2^64-1 and any pointer offset >= 1 (sum overflows); 3: chain root -> leaf -> leaf -> tile entry (depth 3, legal)}; recursion bound 11 > the walk's depth limit of 4"
+// @h id=H8.4-k$k prop=C08,C03 rep="k:0,1,3" quick="0,1,3" cap=900 mem=16 unwind=11 uw="read_dir_rec=3" checks=std recfail=cex stubs="Directory::from_reader -> fixed-shape reference parser (1 entry)" bounds="pointer-graph hazard class k of {0: leaf pointer to its own directory; 1: two directories pointing at each other; 2: leaf_dir_offset = 2^64-1 and any pointer offset >= 1 (sum overflows); 3: chain root -> leaf -> leaf -> tile entry (depth 3, legal)}; recursion bound 11 > the walk's depth limit of 4"
     /// hostile leaf pointers (cycles, offsets near 2^64) are answered with an error, legal nesting with a value: no crash, no unbounded recursion
     #[kani::proof]
     #[kani::stub(crate::directory::Directory::from_reader, stub_from_reader1)]
@@ -349,4 +352,32 @@
         kani::cover!(off == 1);
         kani::cover!(off == u64::MAX - 1);
         std::mem::forget(r);
+    }
+
+// @h id=H8.7 prop=C08 tier=quick cap=900 mem=20 unwind=11 uw="rec:read_dir_rec=1;read_dir_rec=3" checks=std stubs="Directory::from_reader -> fixed-shape reference parser (see H3.1a)" bounds="root-only directory of 2 tile entries with ARBITRARY ids (incl. ids whose run reaches past 2^64) and run lengths 1..2, fixed offsets/lengths; partial open with every combination of bound kinds and any u64 endpoints"
+    /// a range-filtered walk over hostile tile ids (runs reaching past the end of the id space) returns without a crash
+    #[kani::proof]
+    #[kani::stub(crate::directory::Directory::from_reader, stub_from_reader2)]
+    fn h8_7_hostile_ids_partial() {
+        let mut e = any_entries::<2>();
+        let ks: u8 = kani::any();
+        let ke: u8 = kani::any();
+        let a: u64 = kani::any();
+        let b: u64 = kani::any();
+        kani::assume(ks < 3 && ke < 3);
+        let mut i = 0;
+        while i < 2 {
+            kani::assume(e[i].run_length >= 1 && e[i].run_length <= 2);
+            e[i].length = 3;
+            e[i].offset = 7 * i as u64;
+            i += 1;
+        }
+        kani::assume(e[1].tile_id >= e[0].tile_id);
+        let mut img = [0u8; 3 + L2];
+        put2(&mut img, 3, &e);
+        let range = (mk_bound(ks, a), mk_bound(ke, b));
+        let part = read_directories(&mut Cursor::new(&img[..]), Compression::None, (3, L2 as u64), 0, range);
+        kani::cover!(part.is_ok() && e[1].tile_id == u64::MAX && e[1].run_length == 2 && ks == 0);
+        kani::cover!(part.is_ok() && e[0].tile_id == u64::MAX - 1 && e[0].run_length == 2 && ks == 0 && a == 5);
+        std::mem::forget(part);
     }
